@@ -213,18 +213,32 @@ EXTRA_RULES = [
 # =============================================================================================================================
 # contract vocabulary
 # =============================================================================================================================
-HIDE = 'hide(l3::events_ok);'
+# body_first of a grammar fn: the quantifiers of events_ok / tokens_ok / ev_mono stay out of the query (see stat_lemmas.rs)
+HIDE = ('hide(l3::events_ok); hide(tokens_ok); hide(ev_mono);\n'
+        'proof { lemma_tok_bound(p); lemma_from_refl(p.events@); assert(live_at(p.events@, 0)); }\n'
+        'broadcast use gs_chain;')
+HIDE_Q = HIDE
+HIDE_PLAIN = 'hide(l3::events_ok);'        # bodies that keep the quantifiers (short ones; parse_func_name: two identical precede statements)
 NS_REQ = 'nosoft(old(p)), gfirst(old(p))'
 NS_ENS = 'nosoft(final(p))'
 NOT_EOF = '!(old(p).current_token is TkEof)'
 PROG = 'gprog(old(p), final(p)) /*@C02.stat.progress*/'
 SAME = '*final(p) == *old(p)'
-LOOP_STD = 'ginv(p), nosoft(p), gfirst(p), gstep(old(p), p)'
+LOOP_STD = 'ginv(p), nosoft(p), gfirst(p), gstep(old(p), p), live_at(p.events@, 0), ev_from(old(p).events@, p.events@)'
 
 
 def mark_live(var='m', kind=r'\w+'):
     """after `let [mut] m = p.mark(K);`: the marker is live (gives Z3 the term `p.events@[m.position]` that ev_mono propagates)"""
-    return (r'let (?:mut )?%s = p\.mark\(LuaSyntaxKind::%s\);' % (var, kind), 'after', 'proof { assert(m_live(&%s, p)); }' % var)
+    return (r'let (?:mut )?%s = p\.mark\(LuaSyntaxKind::%s\);' % (var, kind), 'after',
+            'proof { assert(live_at(p.events@, %s.position as int)); }' % var)
+
+
+def loop_bu(header_regex):
+    """loop bodies are verified in isolation: the broadcast group has to be brought into scope again at the top of the body"""
+    return (header_regex + r'\s*\{', 'after', 'broadcast use gs_chain;')
+
+
+W_COMMA = r'while p\.current_token\(\) == LuaTokenKind::TkComma'
 
 
 def g(rank, requires=None, ensures=None, ret=None, loops=None, proof=None, rules=None, body_first=HIDE, attrs=None, ns=True, **kw):
@@ -253,11 +267,11 @@ def wloop(extra='', dec='grem(p)'):
     return 'invariant\n    %s,%s\ndecreases %s' % (LOOP_STD, ('\n    ' + extra.strip().rstrip(',') + ',') if extra else '', dec)
 
 
-M_INV = 'm_live(&m, p), p.mark_level > old(p).mark_level, gprog(old(p), p)'
+M_INV = 'live_at(p.events@, m.position as int), p.mark_level > old(p).mark_level, gprog(old(p), p)'
 
 ITEMS = {
     # ---------------------------------------------------------------------------------------------------------------- mod.rs
-    'parse_block': g(210, ret='r', ensures='r is Ok', proof=[mark_live()]),
+    'parse_block': g(210, ret='r', ensures='r is Ok, gkeep(old(p), final(p))', proof=[mark_live()]),
     'expect_token': g(
         201, ret='r', requires='!(token is TkEof)',
         ensures="""r is Ok ==> old(p).current_token == token && gprog(old(p), final(p))
@@ -265,7 +279,8 @@ ITEMS = {
         r is Err ==> """ + SAME),
     'if_token_bump': g(
         202, ret='r', requires='!(token is TkEof)',
-        ensures="""r ==> old(p).current_token == token && gprog(old(p), final(p)),
+        ensures="""r == (old(p).current_token == token),
+        r ==> gprog(old(p), final(p)),
         !r ==> """ + SAME),
     'is_statement_start_token': {'ret': 'r', 'ensures': 'r == sp_stat_start(token) /*@C02.stat.start-set*/'},
     # --------------------------------------------------------------------------------------------------------------- stat.rs
@@ -276,45 +291,50 @@ ITEMS = {
         old(p).current_token != expected ==> """ + SAME + """ && r == sp_stat_start(old(p).current_token)"""),
     'expect_end_keyword': g(104, rules=['gs-drop-msg-closure-param']),
     'recover_to_block_end': g(
-        103,
+        103, body_first=HIDE_PLAIN,
         loops={0: wloop('0 <= depth <= 1 + (p.token_index - old(p).token_index)', 'grem(p), depth') + ' /*@C02.stat.recover-terminates*/'}),
-    'recover_to_keywords': g(105, loops={0: wloop() + ' /*@C02.stat.recover-terminates*/'}),
-    'parse_expr_list_impl': g(106, ret='r', loops={0: wloop()}),
-    'parse_variable_name_list': g(119, ret='r', loops={0: wloop()}),
-    'parse_global_name_list': g(120, ret='r', loops={0: wloop()}),
+    'recover_to_keywords': g(105, loops={0: wloop() + ' /*@C02.stat.recover-terminates*/'},
+                             proof=[loop_bu(r'while p\.current_token\(\) != LuaTokenKind::TkEof')]),
+    'parse_expr_list_impl': g(106, ret='r', loops={0: wloop()}, proof=[loop_bu(W_COMMA)]),
+    'parse_variable_name_list': g(119, ret='r', loops={0: wloop()}, proof=[loop_bu(W_COMMA)]),
+    'parse_global_name_list': g(120, ret='r', loops={0: wloop()}, proof=[loop_bu(W_COMMA)]),
     'parse_stats': g(
-        190,
+        190, ensures='gkeep(old(p), final(p))',
         loops={
-            0: wloop() + ' /*@C02.stats.terminates*/',
+            0: wloop('gkeep(old(p), p)') + ' /*@C02.stats.terminates*/',
             1: """invariant
     """ + LOOP_STD + """,
-    p.token_index == ti1, p.current_token == c1, ti1 > ti0 || !sp_stat_start(c1),
+    p.token_index == ti1, p.current_token == c1, ti1 > ti0 || !sp_stat_start(c1), gkeep(old(p), p),
     old(p).mark_level <= level <= current_level, p.mark_level + VERUS_ghost_iter.index() == current_level,
     VERUS_ghost_iter.seq().len() == current_level - level,""",
             2: """invariant
     """ + LOOP_STD + """, old(p).mark_level <= level <= p.mark_level,
-    p.token_index >= ti0, can_continue ==> p.token_index > ti0,
+    p.token_index >= ti0, can_continue ==> p.token_index > ti0, gkeep(old(p), p),
     p.token_index > ti0 || !sp_stat_start(p.current_token),
 decreases grem(p) /*@C02.stats.recovery-terminates*/""",
         },
         proof=[
             (r'let level = p\.get_mark_level\(\);', 'after', 'let ghost ti0 = p.token_index;'),
             (r'let current_level = p\.get_mark_level\(\);', 'after', 'let ghost ti1 = p.token_index; let ghost c1 = p.current_token;'),
+            loop_bu(r'while !block_follow\(p\)'), loop_bu(r'for _ in 0\.\.\([^{]*\)'),
+            loop_bu(r'while p\.current_token\(\) != LuaTokenKind::TkEof'),
         ]),
     'block_follow': {'ret': 'r', 'ensures': 'r == sp_block_follow(p.current_token) /*@C02.stat.block-follow-set*/'},
     'parse_stat': g(
-        180, ret='r',
+        180, ret='r', body_first=HIDE + ' proof { lemma_nosoft_cur(p); }',
         ensures="""r is Ok ==> gprog(old(p), final(p)) /*@C02.stat.progress*/,
-        r is Err && !gprog(old(p), final(p)) ==> !sp_stat_start(final(p).current_token) /*@C02.stat.err-progress-or-not-a-statement-start*/"""),
-    'parse_if': bump_first(140, loops={0: wloop(M_INV)}),
+        r is Err && !gprog(old(p), final(p)) ==> !sp_stat_start(final(p).current_token) /*@C02.stat.err-progress-or-not-a-statement-start*/,
+        gkeep(old(p), final(p))"""),
+    'parse_if': bump_first(140, loops={0: wloop(M_INV)}, proof=[loop_bu(r'while p\.current_token\(\) == LuaTokenKind::TkElseIf')]),
     'parse_elseif_clause': bump_first(132),
     'parse_else_clause': bump_first(131),
     'parse_while': bump_first(139),
     'parse_do': bump_first(138),
-    'parse_for': bump_first(137, loops={0: wloop(M_INV)}),
+    'parse_for': bump_first(137, loops={0: wloop(M_INV)}, proof=[loop_bu(W_COMMA)]),
     'parse_function': bump_first(136),
     'parse_func_name': g(
-        126, ret='r', proof=[mark_live()],
+        126, ret='r', body_first=HIDE_PLAIN,
+        proof=[(r'let m = p\.mark\(LuaSyntaxKind::NameExpr\);', 'after', 'proof { assert(m_live(&m, p)); }')],
         loops={0: wloop('cm.start < p.events@.len(), p.events@[cm.start as int] is NodeStart')}),
     'parse_local': bump_first(135),
     'try_parse_const': g(
@@ -345,7 +365,7 @@ decreases grem(p) /*@C02.stats.recovery-terminates*/""",
         r matches Ok(cm) ==> gprog(old(p), final(p)) || cm.kind is None,
         gkeep(old(p), final(p))"""),
     'parse_assign_or_expr_or_soft_keyword_stat': g(
-        170, ret='r', proof=[mark_live()],
+        170, ret='r', proof=[mark_live(), loop_bu(W_COMMA)],
         loops={0: wloop(M_INV)},
         ensures="""r is Ok ==> gprog(old(p), final(p)) /*@C02.stat.progress*/,
         old(p).current_token is TkName ==> gprog(old(p), final(p)) /*@C02.stat.progress*/,
@@ -372,6 +392,7 @@ BASE_PATCH = {
     },
     'LuaParser::set_current_token_kind': {
         'ensures+': """forall|j: int| 0 <= j < old(self).tokens@.len() && j != old(self).token_index ==> #[trigger] final(self).tokens@[j] == old(self).tokens@[j],
+            forall|j: int| 0 <= j < old(self).tokens@.len() && j != old(self).token_index ==> #[trigger] tok_soft(final(self).tokens@, j) == tok_soft(old(self).tokens@, j),
             old(self).token_index < old(self).tokens@.len() ==> final(self).current_token == kind && final(self).tokens@[old(self).token_index as int].kind == kind,
             sp_peek(final(self).tokens@, final(self).token_index as int) == sp_peek(old(self).tokens@, old(self).token_index as int) /*@C02.set-kind.peek-unchanged*/""",
         'proof+': [(r'self\.current_token = kind;', 'after',
@@ -383,18 +404,10 @@ BASE_PATCH = {
     },
 }
 
-# clauses needed from expr.rs fns that are not (yet) in expr_items.py — see REQUESTS_TO_EXPR.md
-CROSS_NEEDS = {
-    'parse_expr': {'ret': 'r', 'ensures': NS_ENS},
-    'parse_closure_expr': {'ret': 'r', 'ensures': NS_ENS},
-    'parse_simple_expr': {
-        'ret': 'r',
-        'ensures': NS_ENS + """,
-        (r is Ok || old(p).current_token is TkName) ==> gprog(old(p), final(p)) /*@C02.expr.simple-progress*/,
-        gkeep(old(p), final(p))"""},
-}
+# clauses needed from expr.rs fns that are not (yet) in expr_items.py — see REQUESTS_TO_EXPR.md (all served at the moment)
+CROSS_NEEDS = {}
 
-LEMMAS = None
+LEMMAS = 'stat_lemmas.rs'
 TYPES = {
     'ParseFailReason': {'src': {'file': GM, 'kind': 'enum', 'name': 'ParseFailReason'}},
     'ParseResult': {'src': {'file': GM, 'kind': 'type', 'name': 'ParseResult'}},
@@ -405,7 +418,77 @@ TYPES = {
         'ret': 'r', 'ensures': 'r ==> !(self is TkEof) && !(self is None)'},
 }
 SHIMS = ['shared_shims.rs', 'stat_shims.rs']
-MUTANTS = []
-TRUSTED = []
+MUTANTS = [
+    # --- progress / termination -------------------------------------------------------------------------------------------------
+    {'name': 'gs-stats-recovery-no-bump', 'item': 'g::parse_stats',
+     'pattern': r'(break;\s*\}\s*)p\.bump\(\);', 'repl': r'\1',
+     'expect': r'g::parse_stats:decreases-not-satisfied'},      # (C02.stats.recovery-terminates: reported at the loop header)
+    {'name': 'gs-stats-continue-anywhere', 'item': 'g::parse_stats',
+     'pattern': r'if is_statement_start_token\(p\.current_token\(\)\) \{', 'repl': 'if true {',
+     'expect': r'g::parse_stats:(loop-invariant-not-satisfied|decreases-not-satisfied)'},      # (C02.stats.terminates)
+    {'name': 'gs-recover-keywords-no-bump', 'item': 'g::recover_to_keywords',
+     'pattern': r'p\.bump\(\);', 'repl': '',
+     'expect': r'g::recover_to_keywords:decreases-not-satisfied'},      # (C02.stat.recover-terminates)
+    {'name': 'gs-recover-block-end-keeps-depth', 'item': 'g::recover_to_block_end',
+     'pattern': r'(LuaTokenKind::TkEnd => \{\s*)depth -= 1;', 'repl': r'\1',
+     'expect': r'g::recover_to_block_end:decreases-not-satisfied'},      # (C02.stat.recover-terminates)
+    {'name': 'gs-if-no-bump', 'item': 'g::parse_if',
+     'pattern': r"p\.bump\(\); // consume 'if'", 'repl': '',
+     'expect': r'g::parse_if:(could-not-prove-termination|postcondition-not-satisfied\[C02\.stat\.progress\])'},
+    {'name': 'gs-stat-start-set', 'item': 'g::is_statement_start_token',
+     'pattern': r'\| LuaTokenKind::TkName', 'repl': '| LuaTokenKind::TkString',
+     'expect': r'C02\.stat\.start-set'},
+    {'name': 'gs-assign-skip-first-expr', 'item': 'g::parse_assign_or_expr_or_soft_keyword_stat',
+     'pattern': r'let cm = match parse_simple_expr\(p\) \{\s*Ok\(cm\) => cm,', 'repl': 'let cm = match Ok::<CompleteMarker, ParseFailReason>(CompleteMarker::empty()) { Ok(cm) => cm,',
+     'expect': r'C02\.stat\.progress'},
+    # --- bump at the end of input / marker liveness / mark_level --------------------------------------------------------------------
+    {'name': 'gs-const-third-bump', 'item': 'g::try_parse_const',
+     'pattern': r"p\.bump\(\); // consume 'function'", 'repl': 'p.bump(); p.bump();',
+     'expect': r'g::try_parse_const:precondition-not-satisfied\{p\.bump\(\)'},
+    {'name': 'gs-global-peek-ignored', 'item': 'g::try_parse_global_stat',
+     'pattern': r'match p\.peek_next_token\(\) \{', 'repl': 'match p.current_token() {',
+     'expect': r'g::try_parse_global_stat:precondition-not-satisfied'},
+    {'name': 'gs-local-dead-marker', 'item': 'g::parse_local',
+     'pattern': r'(let mut m = p\.mark\(LuaSyntaxKind::LocalStat\);)', 'repl': r'\1 m = Marker::new(m.position + 1);',
+     'expect': r'g::parse_local:(precondition-not-satisfied|assertion)'},
+    {'name': 'gs-stats-one-node-end-too-many', 'item': 'g::parse_stats',
+     'pattern': r'0\.\.\(current_level - level\)', 'repl': '0..(current_level - level + 1)',
+     'expect': r'g::parse_stats'},
+    {'name': 'gs-func-name-precede-stale', 'item': 'g::parse_func_name',
+     'pattern': r'let mut cm = m\.complete\(p\);', 'repl': 'let mut cm = m.complete(p); cm.start = 1;',
+     'expect': r'g::parse_func_name:(invariant-not-satisfied|precondition-not-satisfied)'},
+    {'name': 'gs-expect-token-bumps-anyway', 'item': 'g::expect_token',
+     'pattern': r'if p\.current_token\(\) == LuaTokenKind::TkEof \{\s*return Err\(ParseFailReason::Eof\);\s*\}', 'repl': 'p.bump();',
+     'expect': r'g::expect_token:precondition-not-satisfied'},
+    # --- base-item patches ------------------------------------------------------------------------------------------------------
+    {'name': 'gs-peek-two-ahead', 'item': 'LuaParser::peek_next_token',
+     'pattern': r'self\.token_index \+ 1', 'repl': 'self.token_index + 2',
+     'expect': r'LuaParser::peek_next_token:(precondition-not-satisfied|postcondition-not-satisfied)'},
+    {'name': 'gs-set-kind-writes-next-token', 'item': 'LuaParser::set_current_token_kind',
+     'pattern': r'self\.tokens\[self\.token_index\]\.kind = kind;', 'repl': 'self.tokens[self.token_index].kind = kind; if self.token_index + 1 < self.tokens.len() { self.tokens[self.token_index + 1].kind = kind; }',
+     'expect': r'LuaParser::set_current_token_kind'},
+]
+TRUSTED = [
+    'ASSUMED (new precondition of parse_chunk, added by BASE_PATCH): nosoft — no token of the stream has kind TkContinue or TkConst. Basis: the lexer '
+    '(lexer/lua_lexer.rs) never constructs these two kinds (grep: they are written only by set_current_token_kind in grammar/lua/stat.rs, immediately '
+    'before the bump that consumes the token); not proved here (a postcondition of LuaLexer::tokenize in unit c01_reader would discharge it). WITHOUT it '
+    'parse_stats does not terminate: see the finding in the DESIGN log / final report (token stream [TkContinue, TkName])',
+    'error REPORTING is removed by rules gs-drop-error-report / gs-drop-msg-closure-arg / gs-drop-msg-closure-param (-> vx_note_error()): TRUSTED that '
+    '`t!(..)` (rust-i18n), LuaParseError::syntax_error_from, LuaParser::push_error (iterator chain over `errors` + Vec::push), `p.errors.push` and the '
+    'message closures `|| t!(..)` do not panic and touch nothing but `errors` (a field projected out of LuaParser)',
+    'LuaParser::current_token_text (shim, stat_shims.rs): precondition token_index < tokens.len() is PROVED at its call site (try_soft_keyword_stat); '
+    'TRUSTED that `&self.text[range.start_offset..range.end_offset()]` does not panic (token ranges lie inside the text on char boundaries: lexer, C01/L1)',
+    'ParserConfig::support (shared_shims.rs), vx_level_ge_lua55 (`p.parse_config.level >= LuaLanguageLevel::Lua55`), `<[T]>::contains` '
+    '(assume_specification, std): total, results unconstrained (every branch is verified for both answers)',
+    'DISCHARGED here for every call site in grammar/lua/stat.rs and grammar/lua/mod.rs (the base unit lists them as PRECONDITION assumptions): bump is never '
+    'called at the end of input; push_node_end / non-empty Marker::complete only with mark_level > 0; Marker::{set_kind,complete,undo} only on a live marker; '
+    'CompleteMarker::precede only on a CompleteMarker whose start holds a NodeStart; `current_level - level` and `depth += 1` do not overflow',
+]
 ALLOW = [r'assume_specification<T: PartialEq>\[ <\[T\]>::contains \]']
-NOT_COVERED = []
+NOT_COVERED = [
+    'that a syntax error IS reported for malformed input (the `errors` list is projected out; only "no panic, terminates, invariant kept" is proved)',
+    'stack depth: every recursion is proved to terminate (decreases grem, rank), but the recursion depth is bounded only by the number of tokens '
+    '(deep nesting overflows the stack: known finding replay/c02)',
+    '"roughly linear time": termination is proved, a complexity bound is not (recover_to_block_end decrements `depth` without consuming at an `end` '
+    'token while depth > 1: bounded by tokens consumed so far, so still linear overall, not proved)',
+]
